@@ -1060,7 +1060,7 @@ theorem eqList_of_ref {r : DRow} {e : EagerD} (h : RefD r e) (o : List Val) :
 /-- every access for which the eager row defines a result (a value, or "must raise" for a position
 beyond the end / a missing header map) gives that result on the lazy row -/
 theorem obsD_of_ref {r : DRow} {e : EagerD} (h : RefD r e) (a : Acc)
-    (hna : match a with | .label => False | .tipe => False | .feats _ => False | _ => True)
+    (hna : match a with | .label => False | .tipe => False | .feats _ => False | .clone _ => False | _ => True)
     (hdef : eagerObsD e a ≠ .undef) : obsD r a = eagerObsD e a := by
   cases a with
   | pos i =>
@@ -1090,6 +1090,7 @@ theorem obsD_of_ref {r : DRow} {e : EagerD} (h : RefD r e) (a : Acc)
   | label => exact absurd hna id
   | tipe => exact absurd hna id
   | feats s => exact absurd hna id
+  | clone s => exact absurd hna id
 
 
 theorem eagerD_append (s1 s2 : List Stage) (e : EagerD) :
@@ -1207,7 +1208,10 @@ theorem touch_iter (r : DRow) : r.touch.iter = r.iter := by
   induction r <;> simp_all [DRow.touch, DRow.iter, cell_get_touch]
 
 theorem touch_labelOf (r : DRow) : r.touch.labelOf = r.labelOf.map (fun p => (p.1.touch, p.2)) := by
-  induction r <;> simp_all [DRow.touch, DRow.labelOf]
+  cases r <;> simp [DRow.touch, DRow.labelOf]
+
+theorem touch_tipeOf (r : DRow) : r.touch.tipeOf = r.tipeOf := by
+  induction r <;> simp_all [DRow.touch, DRow.tipeOf]
 
 theorem touch_obsD (r : DRow) (a : Acc) : obsD r.touch a = obsD r a := by
   induction a generalizing r with
@@ -1225,14 +1229,13 @@ theorem touch_obsD (r : DRow) (a : Acc) : obsD r.touch a = obsD r a := by
     cases r.labelOf with
     | none => rfl
     | some p => simp [touch_getPos]
-  | tipe =>
-    simp only [obsD, DRow.tipe, touch_labelOf]
-    cases r.labelOf <;> rfl
+  | tipe => simp only [obsD, DRow.tipe, touch_tipeOf]
   | feats s ih =>
     simp only [obsD, DRow.feats, touch_labelOf]
     cases r.labelOf with
     | none => rfl
     | some p => exact ih (.dropOne p.1 p.2.1)
+  | clone s ih => simpa [obsD] using ih r
 
 /-- any history of accesses on one row object returns what the same accesses return on fresh rows -/
 theorem runD_eq_map (r : DRow) (as : List Acc) : runD r as = as.map (obsD r) := by
@@ -1298,7 +1301,7 @@ theorem feats_label_dense_cex' :
     ∃ r e, buildD cexStages (baseD cexBase) = .ok (some r) ∧
       (match eagerBaseD cexBase with | .ok e0 => eagerD cexStages e0 | .error er => .error er) = .ok (some e) ∧
       r.iter = .ok e.cells ∧
-      r.labelVal = .ok (.int 2) ∧ e.labelVal = some (.int 3) := by
+      r.labelVal = .error .attrError ∧ e.labelVal = some (.int 3) := by
   refine ⟨_, _, rfl, rfl, rfl, rfl, rfl⟩
 
 /-- a concrete pipeline used by the non-vacuity `example` in Props -/
@@ -2625,7 +2628,7 @@ def Obs.agree : Obs → Obs → Prop
 
 
 theorem obsS_of_ref {r : SRow} {e : EagerS} (h : RefS r e) (hw : WFS e) (a : Acc)
-    (hna : match a with | .label => False | .tipe => False | .feats _ => False | .name k => k ∉ r.leak | _ => True)
+    (hna : match a with | .label => False | .tipe => False | .feats _ => False | .clone _ => False | .name k => k ∉ r.leak | _ => True)
     (hdef : eagerObsS e a ≠ .undef) : (obsS r a).agree (eagerObsS e a) := by
   obtain ⟨ks, hks, hknd, hkm⟩ := h.keys
   cases a with
@@ -2657,6 +2660,7 @@ theorem obsS_of_ref {r : SRow} {e : EagerS} (h : RefS r e) (hw : WFS e) (a : Acc
   | label => exact absurd hna id
   | tipe => exact absurd hna id
   | feats s => exact absurd hna id
+  | clone s => exact absurd hna id
 
 theorem eagerS_append (s1 s2 : List Stage) (e : EagerS) :
     eagerS (s1 ++ s2) e = (match eagerS s1 e with
@@ -2786,7 +2790,7 @@ theorem feats_label_sparse_cex' :
     ∃ r e, buildS cexStagesS (baseS cexBaseS) = .ok (some r) ∧
       (match eagerBaseS cexBaseS with | .ok e0 => eagerS cexStagesS e0 | .error er => .error er) = .ok (some e) ∧
       r.items = .ok e.d ∧
-      r.labelVal = .ok (.int 2) ∧ e.labelVal = some (.int 3) := by
+      r.labelVal = .error .attrError ∧ e.labelVal = some (.int 3) := by
   refine ⟨_, _, rfl, rfl, rfl, rfl, rfl⟩
 
 /-! ### the load-once cell (sparse) -/
@@ -2822,7 +2826,10 @@ theorem touchS_items (r : SRow) : r.touch.items = r.items := by
   induction r <;> simp_all [SRow.touch, SRow.items, cell_get_touch]
 
 theorem touchS_labelOf (r : SRow) : r.touch.labelOf = r.labelOf.map (fun p => (p.1.touch, p.2)) := by
-  induction r <;> simp_all [SRow.touch, SRow.labelOf]
+  cases r <;> simp [SRow.touch, SRow.labelOf]
+
+theorem touchS_tipeOf (r : SRow) : r.touch.tipeOf = r.tipeOf := by
+  induction r <;> simp_all [SRow.touch, SRow.tipeOf]
 
 theorem touch_obsS (r : SRow) (a : Acc) : obsS r.touch a = obsS r a := by
   induction a generalizing r with
@@ -2843,14 +2850,13 @@ theorem touch_obsS (r : SRow) (a : Acc) : obsS r.touch a = obsS r a := by
       have := touchS_get (.label p.1 p.2.1 p.2.2) p.2.1
       simp only [SRow.touch] at this
       simp [this]
-  | tipe =>
-    simp only [obsS, SRow.tipe, touchS_labelOf]
-    cases r.labelOf <;> rfl
+  | tipe => simp only [obsS, SRow.tipe, touchS_tipeOf]
   | feats s ih =>
     simp only [obsS, SRow.feats, touchS_labelOf]
     cases r.labelOf with
     | none => rfl
     | some p => exact ih (.drop p.1 [p.2.1])
+  | clone s ih => simpa [obsS] using ih r
 
 theorem runS_eq_map (r : SRow) (as : List Acc) : runS r as = as.map (obsS r) := by
   induction as generalizing r with
@@ -3180,5 +3186,77 @@ theorem runStages0_rows (stages : List Stage) (rows out : List DRow) (h : runSta
       subst hr1
       obtain ⟨os, hos, ho⟩ := buildD_compose st rest rows os1 os2 hos1 hos2
       exact ⟨os, hos, by rw [hout, ho]⟩
+
+end Coba.C13
+
+namespace Coba.C13
+
+/-! ## copies of rows inside access histories -/
+
+theorem obsD_strip (r : DRow) (a : Acc) : obsD r a = obsD r a.strip := by
+  induction a generalizing r with
+  | feats s ih =>
+    simp only [obsD, Acc.strip]
+    cases r.feats with
+    | error e => rfl
+    | ok f => exact ih f
+  | clone s ih => simpa [obsD, Acc.strip] using ih r
+  | _ => rfl
+
+theorem obsS_strip (r : SRow) (a : Acc) : obsS r a = obsS r a.strip := by
+  induction a generalizing r with
+  | feats s ih =>
+    simp only [obsS, Acc.strip]
+    cases r.feats with
+    | error e => rfl
+    | ok f => exact ih f
+  | clone s ih => simpa [obsS, Acc.strip] using ih r
+  | _ => rfl
+
+theorem eagerObsD_strip (e : EagerD) (a : Acc) : eagerObsD e a = eagerObsD e a.strip := by
+  induction a generalizing e with
+  | feats s ih =>
+    simp only [eagerObsD, Acc.strip]
+    cases e.feats with
+    | none => rfl
+    | some f => exact ih f
+  | clone s ih => simpa [eagerObsD, Acc.strip] using ih e
+  | _ => rfl
+
+theorem eagerObsS_strip (e : EagerS) (a : Acc) : eagerObsS e a = eagerObsS e a.strip := by
+  induction a generalizing e with
+  | feats s ih =>
+    simp only [eagerObsS, Acc.strip]
+    cases e.feats with
+    | none => rfl
+    | some f => exact ih f
+  | clone s ih => simpa [eagerObsS, Acc.strip] using ih e
+  | _ => rfl
+
+/-- a history with copies yields what the same history without the copy steps yields -/
+theorem runD_strip (r : DRow) (as : List Acc) : runD r as = runD r (as.map Acc.strip) := by
+  rw [runD_eq_map, runD_eq_map, List.map_map]
+  apply List.map_congr_left
+  intro a _
+  exact obsD_strip r a
+
+theorem runS_strip (r : SRow) (as : List Acc) : runS r as = runS r (as.map Acc.strip) := by
+  rw [runS_eq_map, runS_eq_map, List.map_map]
+  apply List.map_congr_left
+  intro a _
+  exact obsS_strip r a
+
+/-- after an access on a copy, the original answers every later history as before -/
+theorem runD_after_clone (r : DRow) (a : Acc) (bs : List Acc) : runD (stepD r (.clone a)).2 bs = runD r bs := by
+  rw [runD_eq_map, runD_eq_map]
+  apply List.map_congr_left
+  intro b _
+  exact touch_obsD r b
+
+theorem runS_after_clone (r : SRow) (a : Acc) (bs : List Acc) : runS (stepS r (.clone a)).2 bs = runS r bs := by
+  rw [runS_eq_map, runS_eq_map]
+  apply List.map_congr_left
+  intro b _
+  exact touch_obsS r b
 
 end Coba.C13
